@@ -16,7 +16,7 @@ CLAUSES = {
     "error-class": (("C02",), "the outcome class (group / unroutable error) is the reference one"),
     "literal": (("C05",), "returned labels have the literal's exact value AND type"),
     "ast": (("C02", "C05"), "parse_source builds the AST the reference parser builds (values and types)"),
-    "bucket": (("C12", "C03"), "the group inside the selected return statement is the one the published scheme gives"),
+    "bucket": (("C12", "C03", "C10"), "the group inside the selected return statement is the one the published scheme gives"),
     "irrelevance": (("C09",), "extra keyword arguments and argument order do not change the outcome"),
     "module": (("C14",), "generate_code text (both layouts) behaves like the evaluator"),
     "inert": (("C13",), "nothing but the evaluation skeleton runs (sentinel builtin never invoked)"),
@@ -51,6 +51,13 @@ def link_pipeline(ctx):
     for clause, (props, text) in CLAUSES.items():
         out.append(_bounded("bounded:pipeline/%s" % clause, "pyab_experiment.experiment_evaluator:ExperimentEvaluator", text + " (generated programs x inputs near every literal)",
                             props, r["failures"].get(clause, []), cov))
+    try:
+        r3 = native.one({"cmd": "tv_diff", "count": 200 if ctx.tier == "quick" else 3000, "seed": ctx.seed}, timeout=3000)
+        out.append(_bounded("bounded:pipeline/codegen==D(ast)", "pyab_experiment.codegen.python.python_generator:PythonCodeGen.generate",
+                            "translation validation: the Python AST of the real generator's output (both layouts) equals D(spec AST) on generated programs",
+                            ("C02", "C03", "C05", "C09", "C10", "C12", "C13", "C14", "C01"), r3["failures"], {"evaluations": r3["evaluations"], "bound": r3["bound"]}))
+    except Exception as e:   # noqa
+        out.append(Obl("bounded:pipeline/codegen-run", "pipeline", "bounded", "translation validation runs", status=ERROR, backend="native-bounded", bounded=True, detail=repr(e)[-800:], props=("C02", "C14")))
     m = 40 if ctx.tier == "quick" else 400
     try:
         r2 = native.one({"cmd": "mutants_diff", "count": m, "seed": ctx.seed}, timeout=3000)
